@@ -52,13 +52,32 @@ def idx(el):
     return CUSTOM.index(el)
 
 
+# models with m['mag'] = 'extreme' use functions whose values leave the range of two-digit exponents (1e-130 .. 1e120) inside the tabulated range
+_MAG = [None]
+
+
+class magnitudes(object):
+    def __init__(self, m):
+        self.mag = m.get('mag')
+
+    def __enter__(self):
+        self.old, _MAG[0] = _MAG[0], self.mag
+
+    def __exit__(self, *a):
+        _MAG[0] = self.old
+
+
 def embed_defn(el):
     i = idx(el)
+    if _MAG[0] == 'extreme':
+        return D(('>=', 0.0, form('polynomial', 0.0, 1e118 * (i + 1))))
     return D(('>=', 0.0, form('polynomial', 0.1 * (i + 1), -(1.0 + 0.3 * i), 0.01 * (i + 1))))
 
 
 def dens_defn(el):
     i = idx(el)
+    if _MAG[0] == 'extreme':
+        return D(('>=', 0.0, form('exp_spline', 0.1 * i, -45.0, 0.0, 0.0, 0.0, 0.0, 0.0)))
     # (bornmayer/buck divide by r**6 even when C = 0, so forms that are regular at r = 0 in the implementation are used)
     f = form('exp_spline', 0.7 + 0.2 * i, -(0.9 + 0.1 * i), 0.01 * (i + 1), 0.0, 0.0, 0.0, 0.05 * i)
     return D(('>=', 0.0, f)) if i % 2 == 0 else D(f)
@@ -68,6 +87,8 @@ def dens_fs_defn(a, b):
     """three shapes, all injective in (a, b): a coded single-range function; one COMMON function switched off at a coded separation
     (entries that differ only in their range boundaries); a function that is explicitly zero at short range and coded beyond"""
     k = 8 * idx(a) + idx(b)
+    if _MAG[0] == 'extreme':
+        return D(('>=', 0.0, form('exp_spline', 0.01 * k, -45.0, 0.0, 0.0, 0.0, 0.0, 0.0)))
     c = 1.0 + 0.37 * k
     coded = form('exp_spline', 0.1 * c, -1.1, 0.02, 0.0, 0.0, 0.0, 0.0)
     if k % 3 == 1:
@@ -84,6 +105,8 @@ def _pk(a, b):
 
 def pair_defn(a, b):
     k = _pk(a, b)
+    if _MAG[0] == 'extreme':
+        return D(('>=', 0.0, form('exp_spline', 0.05 * k, 42.0, 0.0, 0.0, 0.0, 0.0, 0.0)))
     return D(('>=', 0.0, form('morse', 1.2 + 0.02 * k, 2.0 + 0.01 * k, 0.3 + 0.01 * k)))
 
 
@@ -120,6 +143,11 @@ def declared_pair(m, a, b, key='pairs'):
 
 def ref_functions(m, semantics):
     """reference callables r -> Jet with the route's semantics ('api' or 'cfg')"""
+    with magnitudes(m):
+        return _ref_functions(m, semantics)
+
+
+def _ref_functions(m, semantics):
     def wrap(d):
         d2 = R.apiize(d) if semantics == 'api' else d
         return lambda r: X.ev_defn(d2, r)
@@ -135,7 +163,8 @@ def ref_functions(m, semantics):
         rho = {e: (wrap(dens_defn(e)) if e in m['dens'] else zero) for e in els}
 
     def phi(a, b, key='pairs', mk=pair_defn):
-        return wrap(mk(a, b)) if declared_pair(m, a, b, key) else zero
+        with magnitudes(m):
+            return wrap(mk(a, b)) if declared_pair(m, a, b, key) else zero
     return dict(F=F, rho=rho, phi=phi, u=lambda a, b: phi(a, b, 'dip', dip_defn), w=lambda a, b: phi(a, b, 'quad', quad_defn))
 
 
@@ -247,6 +276,11 @@ def label_models(fs, tier):
 
 # -------------------------------------------------------------------------------------- ini rendering
 def eam_ini(m, target, sep=' : '):
+    with magnitudes(m):
+        return _eam_ini(m, target, sep)
+
+
+def _eam_ini(m, target, sep=' : '):
     out = ['[Tabulation]', 'target%s%s' % (sep, target), 'nr%s%d' % (sep, m['nr']), 'cutoff%s%s' % (sep, X.num(m['cutoff'])),
            'nrho%s%d' % (sep, m['nrho']), 'cutoff_rho%s%s' % (sep, X.num(m['cutoff_rho'])), '']
     sp = m.get('species', 'builtin')
@@ -302,6 +336,17 @@ def big_grid_models(fs):
     return out
 
 
+def extreme_models(fs):
+    """values of 1e-130 .. 1e120 inside the tabulated range (three-digit exponents); tables of a million rows (seven-digit counts)"""
+    out = []
+    for els in (['Cu'], ['Al', 'Ni']):
+        dens = ['%s->%s' % (a, b) for a in els for b in els] if fs else list(els)
+        out.append(dict(fs=fs, embed=list(els), dens=dens, pairs=[[els[0], els[-1]]], species='builtin', nr=14, cutoff=6.5, nrho=5, cutoff_rho=100.0, mag='extreme'))
+    out.append(dict(fs=fs, embed=['Cu'], dens=(['Cu->Cu'] if fs else ['Cu']), pairs=[], species='builtin', nr=3, cutoff=2.5, nrho=1000001, cutoff_rho=100.0, stride=9973))
+    out.append(dict(fs=fs, embed=['Al'], dens=(['Al->Al'] if fs else ['Al']), pairs=[['Al', 'Al']], species='builtin', nr=1234567, cutoff=6.5, nrho=3, cutoff_rho=50.0, stride=9973))
+    return out
+
+
 class ListSink(list):
     """a minimal file-like sink: a list of the chunks written (empty, hence falsy, until something is written)"""
     write = list.append
@@ -345,6 +390,11 @@ class LazyDensities(collections.abc.Mapping):
 
 
 def api_objects(m, order=None):
+    with magnitudes(m):
+        return _api_objects(m, order)
+
+
+def _api_objects(m, order=None):
     """(pair potentials, EAMPotential list in `order` (default: model_elements order), dipoles, quadrupoles).
     In the Python API the user states everything explicitly: undeclared functions are explicit zero() callables."""
     import atsim.potentials as ap
@@ -525,3 +575,22 @@ def big_models(fs, tier):
                 out.append(dict(fs=fs, embed=list(els), dens=dens, pairs=[list(p) for p in orient(pairs, pi % 3)], species='builtin',
                                 nr=3 + (oi + pi) % 3, cutoff=2.5, nrho=2 + (oi + pi) % 4, cutoff_rho=50.0))
     return out
+
+
+# -------------------------------------------------------------------------------------- the grid itself (procedural writers, step handed over)
+GRID_EXACT = [(0.1, 12), (0.01, 60), (0.3, 9), (0.7, 8), (0.05, 41), (0.001, 120), (1.0 / 3.0, 10), (0.025, 50)]
+
+
+def stair(step, n):
+    """a right-continuous staircase with one unit step AT every grid point float(i)*step: its value at the i-th grid point is i + 1, and
+    i (or i + 2) at any other float next to it - the row values spell out the separations the writer really used"""
+    import bisect
+    knots = [float(j) * step for j in range(n)]
+    return lambda x: float(bisect.bisect_right(knots, float(x)))
+
+
+def grid_exact_objects(nrho, drho, nr, dr, fs):
+    import atsim.potentials as ap
+    dens = stair(dr, nr)
+    eam = ap.EAMPotential('Cu', 29, 63.546, stair(drho, nrho), {'Cu': dens} if fs else dens, latticeConstant=3.61, latticeType='fcc')
+    return [ap.Potential('Cu', 'Cu', stair(dr, nr))], [eam]
